@@ -9,6 +9,14 @@ ALL = ["C%02d" % i for i in range(1, 21)]
 
 # id -> dict(level, technique, text, note, design_ref, engine)
 CHECKS = {
+    "C19": dict(
+        level="fault_enumeration",
+        engine="E6-fault",
+        technique="exhaustive fault-point enumeration of an injected io::Write sink (every write position x error kind, zero-length and short writes) over an enumerated program corpus",
+        text="For every program of the corpus (complete depth-1 generator space with integer/small-string/escaped/safe emits appended, .html-named variants, run-time failing variants, a stride of the depth-2 space, include / include-in-loop / extends+super / import / three-level inheritance families, and single blocks through State::render_block_to_write) a healthy instrumented sink records the write calls W1..WN; then the k-th write is made to fail for every k in 1..=N with BrokenPipe, Other and WouldBlock, and to return Ok(0): the bytes received must be exactly W1..W(k-1), no write may follow the failing one, the result must be Err(WriteFailure) whose source() is the injected io::Error; short-write sinks must deliver identical bytes. 1.4e5 fault points in the quick tier.",
+        note="The set of write sites reached is the corpus'; Interrupted is not injected (write_all retries it by contract).",
+        design_ref="2/C19",
+    ),
     "C13": dict(
         level="exploration",
         engine="E1-enum",
